@@ -126,6 +126,54 @@ theorem C36_monitor (res : Bool) (f : Forest) (n : Nat) (rg : Reg) :
       refine List.Perm.trans List.perm_middle ?_
       exact List.Perm.cons _ (List.Perm.append k2 r2)
 
+/-- C36 over the RECORD LOG, all activities (FULL; any nesting, with or without resource monitoring): reading the
+    log without knowing which kind of activity a record belongs to — a record with `startedAtTime` opens the
+    activity named by its `@id`, a record with `endedAtTime` closes the activity named by its `@id` — every activity
+    id (job activities AND monitor activities) is opened at most once, every opened id has exactly one end record
+    under that same id, and no end record bears an id that was never opened. -/
+theorem C36_all_activities (res : Bool) (f : Forest) (n : Nat) :
+    let tr := trace false res f n
+    WellClosed tr
+    ∧ (∀ id ∈ opened tr, (closed tr).count id = 1)
+    ∧ (∀ id, id ∉ opened tr → (closed tr).count id = 0) := by
+  have hnd := opened_nodup res f n ⟨0, 0, 0⟩
+  have hp := closed_perm_opened res f n ⟨0, 0, 0⟩
+  have hcount : ∀ id, (closed (trace false res f n)).count id = (opened (trace false res f n)).count id :=
+    fun id => hp.count_eq id
+  refine ⟨⟨hnd, hcount⟩, ?_, ?_⟩
+  · intro id hid
+    rw [hcount id, (show (opened (trace false res f n)).Nodup from hnd).count]
+    simp [hid]
+  · intro id hid
+    rw [hcount id, (show (opened (trace false res f n)).Nodup from hnd).count]
+    simp [hid]
+
+/-- under ALL the opened activities are the jobs' activities and one monitor activity per job: twice as many
+    opened ids as executed jobs (and as many without monitoring) -/
+theorem C36_opened_count (res : Bool) (f : Forest) (n : Nat) (rg : Reg) :
+    (opened (emit false res f n rg).1).length = (if res then 2 else 1) * f.size := by
+  induction f generalizing n rg with
+  | nil => simp [emit, opened, Forest.size]
+  | node i kids rest ihk ihr =>
+    obtain ⟨rgk, h⟩ := emit_own_node res i kids rest n rg
+    rw [h, opened_append, opened_block]
+    simp only [List.length_append, List.length_cons, ihk, ihr, Forest.size]
+    cases res <;> simp <;> omega
+
+/-- documentation: the log of ONE job under ALL in which the monitor's end record is filed under the JOB's
+    activity id (an `_end_record` helper that ignores the id it is given): same number of records, but the job's
+    activity has two end records and the monitor's activity none — not `WellClosed`; the model's log is. -/
+theorem C36_witness_end_id :
+    let good := trace false true (.node ⟨0, false, true⟩ .nil .nil) 0
+    let bad := good.map (fun m => match m with | .monEnd _ a => Msg.monEnd a a | m => m)
+    good.length = bad.length ∧ opened bad = [0, 2] ∧ closed bad = [0, 0] ∧ closed good = [2, 0]
+    ∧ ¬ WellClosed bad := by
+  refine ⟨by decide, by decide, by decide, by decide, ?_⟩
+  intro h
+  have := h.2 2
+  revert this
+  decide
+
 /-! ### the repaired defect D21, kept as documentation -/
 
 /-- one workflow job with one node job, debug worker, PROV -/
